@@ -13,6 +13,19 @@ V = os.path.dirname(os.path.dirname(os.path.abspath(__file__)))
 SEEDED = os.path.join(V, "seeded")
 
 
+def header_props():
+    """header file name -> properties whose anchors name it (from properties.jsonl)"""
+    m = {}
+    for l in open(os.path.join(V, "properties.jsonl")):
+        d = json.loads(l)
+        for f in d.get("anchors", {}).get("files", []):
+            m.setdefault(os.path.basename(f), []).append(d["id"])
+    return m
+
+
+HEADER_PROPS = header_props()
+
+
 def main():
     ap = argparse.ArgumentParser()
     ap.add_argument("ids", nargs="*")
@@ -30,7 +43,16 @@ def main():
     for sid in ids:
         d = os.path.join(SEEDED, sid)
         meta = json.load(open(os.path.join(d, "meta.json")))
-        props = a.props.split(",") if a.props else (claimed if a.all_props else [meta["property"]] + meta.get("also", []))
+        harmless = meta.get("kind") == "harmless"
+        if a.props:
+            props = a.props.split(",")
+        elif a.all_props:
+            props = claimed
+        elif harmless:
+            # behaviour-preserving change: every check whose anchors touch one of the changed headers must stay silent
+            props = sorted({p for h in meta.get("headers", []) for p in HEADER_PROPS.get(os.path.basename(h), [])}) or claimed
+        else:
+            props = [meta["property"]] + meta.get("also", [])
         tmp = tempfile.mkdtemp(prefix="cocls-seeded.", dir="/var/tmp")
         try:
             repo = os.path.join(tmp, "repo")
@@ -62,6 +84,8 @@ def main():
                 vio = [l for l in out.splitlines() if l.startswith("VIOLATION")]
                 concrete = [l for l in vio if "no-failing-input-found" not in l]
                 verdict = "caught-concrete" if concrete else ("caught-obligation" if vio else "MISSED")
+                if harmless:
+                    verdict = "FALSE-ALARM-concrete" if concrete else ("alarm-obligation-only" if vio else "silent-ok")
                 print("%-28s %s %-7s %-18s rc=%d %.0fs  %s" % (sid, pid, a.tier, verdict, q.returncode, time.time() - t0,
                                                               (vio[0][:150] if vio else "")))
                 results.setdefault(sid, {})["%s:%s" % (pid, a.tier)] = {"verdict": verdict, "rc": q.returncode,
